@@ -183,9 +183,11 @@ def k_vec(ctx, spec):
         return ctx.fill(t, name, spec.get('dtype', 'real'))
     b = sub('b', lambda i: i % 2 == 0)
     c = sub('c', lambda i: i % 3 != 1)
+    fused = False
     if tk == 'hard' and a.ndim >= 2:
         f = lambda t: t.fuse_legs(axes=((0, 1),) + tuple(range(2, t.ndim)), mode='hard')
         a, b, c = f(a), f(b), f(c)
+        fused = True
     if tk == 'lazy' and a.ndim >= 2:
         p = tuple(range(a.ndim))[::-1]
         a, b, c = a.transpose(p), b.transpose(p), c.transpose(p)
@@ -204,8 +206,13 @@ def k_vec(ctx, spec):
     ctx.eq([(dense.conj(vb) * vc).sum()], [yastn.vdot(b, c)], 'vec:inner-product-preserving')
     # and back: the vector defines the tensor
     r = yastn.Tensor.from_dict(yastn.combine_data_and_meta(vb, meta))
-    nat = list(a.get_legs(native=True)) if a.ndim_n else None
-    ctx.eq(reassemble(r, nat), reassemble(b, nat), 'vec:inverse-map')
+    if fused:
+        # fused legs of b are narrower than those of the meta (missing sectors): compare after un-fusing, on the meta's legs
+        nat = list(a.unfuse_legs(axes=0).get_legs(native=True))
+        ctx.eq(reassemble(r.unfuse_legs(axes=0), nat), reassemble(b.unfuse_legs(axes=0), nat), 'vec:inverse-map')
+    else:
+        nat = list(a.get_legs(native=True)) if a.ndim_n else None
+        ctx.eq(reassemble(r, nat), reassemble(b, nat), 'vec:inverse-map')
     return {'a': describe(a), 'level': level}
 
 
@@ -296,9 +303,7 @@ def k_mps(ctx, spec):
     phi.factor = ctx.scalar('factor', 'real', lo=0.25, hi=4)
     if spec['pC'] and obj != 'mpo_pbc' and N >= 2:
         # central block: a diagonal-free rank-2 tensor between sites 0 and 1
-        vl = phi[1].get_legs(0)
-        C = yastn.zeros(config=cfg, legs=[vl.conj(), vl]) if True else None
-        C = yastn.eye(config=cfg, legs=[vl.conj(), vl], isdiag=False)
+        C = yastn.ones(config=cfg, legs=[phi[0].get_legs(2).conj(), phi[1].get_legs(0).conj()])
         ctx.fill(C, 'pc', 'real')
         phi.pC = (0, 1)
         phi.A[phi.pC] = C
@@ -312,7 +317,9 @@ def k_mps(ctx, spec):
         if r is None:
             ctx.skip('no legacy loader for this class')
         # legacy form absorbs the central block: compare represented objects
-        T0, T1 = phi.to_tensor(), r.to_tensor()
+        p2 = phi.shallow_copy()
+        p2.absorb_central_()       # to_tensor() contracts site tensors only; the legacy format stores the absorbed form
+        T0, T1 = p2.to_tensor(), r.to_tensor()
         nat = list(T0.get_legs(native=True))
         ctx.eq([r.factor], [phi.factor], 'legacy:factor')
         ctx.eq(reassemble(T1, nat), reassemble(T0, nat), 'legacy:represented-object')
